@@ -411,7 +411,7 @@ func buildProviderMap(fset *token.FileSet, hasher typeutil.Hasher, set *Provider
 
 	// Process bindings in set. Must happen after the other providers to
 	// ensure the concrete type is being provided.
-	for _, b := range set.Bindings {
+	for _, b := range resolutionOrder(set.Bindings, providerMap) {
 		src := &providerSetSrc{Binding: b}
 		if prevSrc := srcMap.At(b.Iface); prevSrc != nil {
 			ec.add(bindingConflictError(fset, b.Iface, set, src, prevSrc.(*providerSetSrc)))
@@ -433,6 +433,43 @@ func buildProviderMap(fset *token.FileSet, hasher typeutil.Hasher, set *Provider
 		return nil, nil, ec.errors
 	}
 	return providerMap, srcMap, nil
+}
+
+// resolutionOrder returns bindings reordered so that a binding whose
+// provided type is itself an interface bound in the same set comes after
+// the binding of that interface. The outcome of buildProviderMap then
+// does not depend on the order in which the bindings were written.
+// Bindings that cannot be resolved keep their relative order at the end.
+func resolutionOrder(bindings []*IfaceBinding, providerMap *typeutil.Map) []*IfaceBinding {
+	ordered := make([]*IfaceBinding, 0, len(bindings))
+	done := make([]bool, len(bindings))
+	resolvable := func(t types.Type) bool {
+		if providerMap.At(t) != nil {
+			return true
+		}
+		for _, b := range ordered {
+			if types.Identical(b.Iface, t) {
+				return true
+			}
+		}
+		return false
+	}
+	for progress := true; progress; {
+		progress = false
+		for i, b := range bindings {
+			if !done[i] && resolvable(b.Provided) {
+				ordered = append(ordered, b)
+				done[i] = true
+				progress = true
+			}
+		}
+	}
+	for i, b := range bindings {
+		if !done[i] {
+			ordered = append(ordered, b)
+		}
+	}
+	return ordered
 }
 
 func verifyAcyclic(providerMap *typeutil.Map, hasher typeutil.Hasher) []error {
